@@ -8,6 +8,7 @@ import (
 	"sort"
 	"strings"
 	"syscall"
+	"time"
 
 	"verifharness/client"
 	"verifharness/core"
@@ -45,6 +46,7 @@ type c07Scen struct {
 	final       string // for pending plans: "success" | "failed" — what Lightning does after the crash
 	internal    bool
 	quickFaults bool
+	lapsed      bool // mint: the invoice lives one second, is paid in time, and has lapsed when the request arrives
 }
 
 func c07Keysets(env *menv.Env) string {
@@ -81,13 +83,41 @@ func c07SetupDir(r *core.Run, sc c07Scen, seed int64, dir string) (*c07Ctx, erro
 	switch sc.kind {
 	case "mint":
 		c.amount = 21
+		if sc.lapsed {
+			world.InvoiceExpirySec = 1
+		}
 		q, err := env.RequestMintQuote(c.amount, "")
+		world.InvoiceExpirySec = 0
 		if err != nil {
 			return nil, err
 		}
 		c.mintQ, c.mintH = q.Id, q.PaymentHash
 		world.PayInvoice(q.PaymentHash)
+		if sc.lapsed {
+			time.Sleep(2200 * time.Millisecond) // nobody has told the mint; invoice and quote have lapsed by now
+		}
 		c.outs = client.Outputs(rng, act.Id, client.Split(c.amount))
+	case "respendmelt", "respendswap":
+		// inputs that have been spent (swapped) before; the operation under test presents them again
+		ps, err := env.FundOutputs(client.Outputs(rng, act.Id, []uint64{32, 16, 8}))
+		if err != nil {
+			return nil, err
+		}
+		c.inputs = ps
+		first := client.Outputs(rng, act.Id, client.Split(client.Sum(ps)-client.FeeFor(ps, env.Keysets)))
+		if _, err := env.Swap(ps, client.BMs(first)); err != nil {
+			return nil, err
+		}
+		c.outs = client.Outputs(rng, act.Id, client.Split(client.Sum(ps)-client.FeeFor(ps, env.Keysets)))
+		if sc.kind == "respendmelt" {
+			inv := world.NewExternalInvoice(50_000)
+			mq, err := env.RequestMeltQuote(inv.Bolt11, 0)
+			if err != nil {
+				return nil, err
+			}
+			c.meltQ, c.meltH, c.invSat = mq.Id, inv.Hash, 50
+			env.Node.PlanPay(inv.Hash, lnmodel.PayPlan{Answer: lnmodel.ASucceeded})
+		}
 	case "swap":
 		ps, err := env.FundOutputs(client.Outputs(rng, act.Id, []uint64{16, 4, 1}))
 		if err != nil {
@@ -156,10 +186,10 @@ func c07Op(sc c07Scen, c *c07Ctx) (delivered bool, sigs cashu.BlindedSignatures,
 	case "mint":
 		sigs, err = env.MintTokens(c.mintQ, client.BMs(c.outs), "")
 		return err == nil, sigs, "", err
-	case "swap", "swaplocked":
+	case "swap", "swaplocked", "respendswap":
 		sigs, err = env.Swap(c.inputs, client.BMs(c.outs))
 		return err == nil, sigs, "", err
-	case "melt":
+	case "melt", "respendmelt":
 		q, e := env.Melt(c.meltQ, c.inputs)
 		return e == nil, nil, q.State.String(), e
 	case "poll":
@@ -200,6 +230,9 @@ func runC07(r *core.Run) {
 		{name: "checkstate-resolves-failed", kind: "checkstate", final: "failed"},
 		{name: "rotate", kind: "rotate", quickFaults: true},
 		{name: "swap-of-inputs-locked-in-a-pending-melt", kind: "swaplocked", final: "success"},
+		{name: "melt-of-spent-inputs", kind: "respendmelt"},
+		{name: "swap-of-spent-inputs", kind: "respendswap"},
+		{name: "mint-after-the-paid-invoice-lapsed", kind: "mint", lapsed: true},
 	}
 	type job struct {
 		sc   c07Scen
@@ -237,7 +270,7 @@ func runC07(r *core.Run) {
 		}
 		// the trace must contain the call the scenario is about; otherwise its set-up did not
 		// produce the situation (a resolution scenario whose melt is not pending has one boundary)
-		must := map[string]string{"mint": "SaveBlindSignatures", "swap": "SaveBlindSignatures", "poll": "OutgoingPaymentStatus", "checkstate": "OutgoingPaymentStatus", "rotate": "SaveKeyset", "melt": "SendPayment", "swaplocked": "GetPendingProofs"}[sc.kind]
+		must := map[string]string{"mint": "SaveBlindSignatures", "swap": "SaveBlindSignatures", "poll": "OutgoingPaymentStatus", "checkstate": "OutgoingPaymentStatus", "rotate": "SaveKeyset", "melt": "SendPayment", "swaplocked": "GetPendingProofs", "respendmelt": "GetProofsUsed", "respendswap": "GetProofsUsed"}[sc.kind]
 		if sc.internal {
 			must = "UpdateMintQuoteState"
 		}
@@ -575,6 +608,20 @@ func c07Run(r *core.Run, sc c07Scen, mode string, k, n int, sig string, seed int
 		}
 		if f2+f3 < c.amount {
 			viol("atomicity", fmt.Sprintf("the quote was paid (%d) but only %d can be obtained after the restart", c.amount, f2+f3))
+		}
+	case "respendmelt", "respendswap":
+		// whatever fails on the way, proofs that were spent before buy nothing a second time
+		if opErr == nil {
+			viol("safety", "a request presenting inputs that had been spent before was accepted")
+		}
+		if lnOut > 0 {
+			viol("safety", fmt.Sprintf("an invoice of %d sat was paid for inputs that had been spent before", lnOut))
+		}
+		if f1+f2 > 0 {
+			viol("safety", fmt.Sprintf("inputs that had been spent before, or outputs obtained for them, were spent (%d + %d)", f1, f2))
+		}
+		if meltState == "PAID" {
+			viol("safety", "the melt quote offered spent inputs polls to PAID")
 		}
 	case "swaplocked":
 		if opErr == nil {
